@@ -167,6 +167,7 @@ type Sim struct {
 	psw      [nKinds]float64
 	pstall   float64
 	progress uint64
+	noFaults bool
 
 	chans map[uintptr]*chanState
 
@@ -338,6 +339,22 @@ func (s *Sim) start(g *G, fn func()) {
 		if s.aborting || g.killed {
 			return
 		}
+		normal := false
+		defer func() {
+			if !normal && !s.aborting && !g.killed && !s.unwind && s.cur == g && g.state == stRunning {
+				// the running goroutine is leaving without handing the token over
+				// (runtime.Goexit, e.g. testing.FailNow): report instead of hanging
+				if r := recover(); r != nil {
+					buf := make([]byte, 8192)
+					n := runtime.Stack(buf, false)
+					s.died = fmt.Sprintf("g%d(%s) panic: %v\n%s", g.id, g.site, r, trimStack(string(buf[:n])))
+				} else {
+					s.died = fmt.Sprintf("g%d(%s) left through runtime.Goexit while running", g.id, g.site)
+				}
+				g.state = stDead
+				s.finish("died")
+			}
+		}()
 		defer func() {
 			if r := recover(); r != nil {
 				if s.aborting || g.killed || s.unwind {
@@ -352,6 +369,7 @@ func (s *Sim) start(g *G, fn func()) {
 			}
 		}()
 		fn()
+		normal = true
 		if s.aborting || g.killed || s.unwind {
 			return
 		}
@@ -868,6 +886,9 @@ func Decide(name string) bool {
 	}
 	g := s.cur
 	g.ops++
+	if s.noFaults {
+		return false
+	}
 	if s.replaying {
 		if d, ok := s.script[dkey{g.id, g.ops, DFault}]; ok && d.Name == name && d.Val != 0 {
 			s.rec = append(s.rec, d)
@@ -903,6 +924,9 @@ func DecideN(name string, n int) int {
 	}
 	g := s.cur
 	g.ops++
+	if s.noFaults {
+		return 0
+	}
 	if s.replaying {
 		if d, ok := s.script[dkey{g.id, g.ops, DFault}]; ok && d.Name == name {
 			v := int(d.Val)
@@ -932,6 +956,18 @@ func DecideN(name string, n int) int {
 		return v
 	}
 	return 0
+}
+
+// SetFaults switches fault injection (Decide/DecideN and stalls) on or off for
+// the rest of the run; harnesses switch it off before they read the final
+// state back.
+func SetFaults(on bool) {
+	if s := active; s != nil {
+		s.noFaults = !on
+		if !on {
+			s.pstall = 0
+		}
+	}
 }
 
 // FaultEnabled reports whether a fault kind has a non-zero rate in this run.
